@@ -2,6 +2,7 @@
 both execution paths, let TLC (spec/CheckLang.tla = MSLang!Run) judge every case."""
 import json
 import os
+import re
 import shutil
 import threading
 from pathlib import Path
@@ -42,12 +43,33 @@ def observe(binary, root, src, paths=("run", "exec"), timeout=10, trace=False):
         else:
             raise ValueError(p)
         fclass, panic = classify.classify(r)
+        m = re.search(r"([\w./-]+\.ms):(\d+):(\d+)", r["err"]) if fclass in ("nil", "assert") else None
         if fclass == "compile":
             compile_rejected = True
         obs.append(dict(path=p, exit=r["exit"] if not r["timeout"] else 124, out=classify.out_lines(r["out"]) if fclass != "compile" else [],
                         fclass=fclass, panic=panic, err=C.strip_ansi(r["err"])[-1500:],
+                        posfile=m.group(1) if m else "", posline=int(m.group(2)) if m else 0, poscol=int(m.group(3)) if m else 0,
                         diag=C.strip_ansi(r["out"])[-1500:] if fclass == "compile" else ""))
     return obs, compile_rejected
+
+
+def expect_pos(src):
+    """Where the (single) `get` / failing `assert` of a generated program is: line and column range.
+    n = 0 when the program has none or several (then positions are not judged)."""
+    out = {}
+    for word, key in (("(get ", "get"), ("assert ", "assert")):
+        hits = []
+        for ln, line in enumerate(src.split("\n"), 1):
+            k = line.find(word)
+            if k >= 0:
+                hits.append((ln, k + 1, len(line)))
+                if line.find(word, k + 1) >= 0:
+                    hits.append((ln, 0, 0))
+        if len(hits) == 1:
+            out[key] = dict(n=1, line=hits[0][0], lo=hits[0][1], hi=hits[0][2])
+        else:
+            out[key] = dict(n=0, line=0, lo=0, hi=0)
+    return out
 
 
 def run_cases(binary, work, cases, paths=("run", "exec"), tlc_workers=12, tlc_timeout=3000, chunk=40000):
@@ -59,6 +81,7 @@ def run_cases(binary, work, cases, paths=("run", "exec"), tlc_workers=12, tlc_ti
         src = render.program(json.loads(json.dumps(c["prog"]["body"])))
         obs, rej = observe(binary, root, src, paths)
         c["src"], c["obs"], c["rejected"] = src, obs, rej
+        c["expect"] = expect_pos(src)
         return c
     C.pmap(one, cases)
     shutil.rmtree(root, ignore_errors=True)
@@ -68,8 +91,9 @@ def run_cases(binary, work, cases, paths=("run", "exec"), tlc_workers=12, tlc_ti
     for k in range(0, len(judged), chunk):
         part = judged[k:k + chunk]
         f = work / f"cases{k}.ndjson"
-        C.write_ndjson(f, [dict(id=c["id"], prog=c["prog"],
-                                obs=[dict(path=o["path"], exit=o["exit"], out=o["out"], fclass=o["fclass"]) for o in c["obs"]]) for c in part])
+        C.write_ndjson(f, [dict(id=c["id"], prog=c["prog"], expect=c["expect"],
+                                obs=[dict(path=o["path"], exit=o["exit"], out=o["out"], fclass=o["fclass"],
+                                          posfile=o["posfile"], posline=o["posline"], poscol=o["poscol"]) for o in c["obs"]]) for c in part])
         r = C.tlc("CheckLang", "CheckLang", work / f"judge{k}", env=dict(CASES=str(f)), workers=tlc_workers, timeout=tlc_timeout, heap_mb=12000)
         if r.error or r.invariant_violated:
             raise C.ToolError(f"CheckLang: {r.error or r.invariant_violated}")
